@@ -27,9 +27,14 @@ import signal
 import sys
 import time
 
+sys.path.insert(0, os.path.dirname(os.path.dirname(os.path.abspath(__file__))))
 import common
 
 LEAN_MODULES = ["PySMT.Props.C19"]
+# Changed-source escalation (a second round when changed anchored lines were not executed) is switched off: the
+# anchored code of C19 runs in forked workers and in the member processes, whose executed lines the runner's
+# per-process line coverage cannot see -- it would always report them as unreached and double every run on a changed tree.
+ESCALATE = False
 RULE = ("configuration = exit_on_exception x 2-4 members (mode answer/raise/unknown/exit, delay 0-50 ms, model pick) x "
         "script of assert/push/pop/solve/is_sat/is_valid/is_unsat/get_model/get_values over random Boolean formulas "
         "(verdicts and values are judged against the live assertion stack tracked by the harness); all 2-member mode pairs "
@@ -60,6 +65,11 @@ FAIL_POOL = ("raise", "unknown", "exit") * 3 + EXTRA_FAIL_MODES
 ANY_POOL = ("answer",) * 5 + FAIL_POOL
 MODE_LETTER = {"raise": "R", "unknown": "U", "exit": "C", "sysexit0": "C", "sysexit1": "C", "kbdint": "C",
                "baseexc": "C", "nonbool_none": "N", "nonbool_str": "N"}
+# members that are SMT-LIB wrappers: "answer", "unknown", "crash" (the wrapped process dies before it answers check-sat:
+# the wrapper reads end-of-file and raises UnknownSolverAnswerError), "crash_after" (it answers, then dies: the member
+# counts as answering, its later get_value fails)
+MODE_LETTER["crash"] = "N"
+ANSWERING = ("answer", "crash_after")
 SILENT_MODES = ("exit", "sysexit0", "sysexit1", "kbdint", "baseexc")
 DELAYS = (0, 0, 0, 1, 2, 5, 10, 20, 50)
 # the repaired loop polls the queue every 100 ms: members that finish around a multiple of the polling interval
@@ -78,10 +88,39 @@ def gen_formula(rng, depth=3):
     return [op, gen_formula(rng, depth - 1), gen_formula(rng, depth - 1)]
 
 
+# Variables are numbered: 0-2 Bool x0..x2 (all configurations); 10, 11 Int y0, y1 and 20-22 u0..u2 of the user-declared
+# sort U (only configurations whose members are generic SMT-LIB wrappers).  Int ranges over [-3, 3] and U has 3
+# elements in the enumeration (the external reference solver enumerates the same domains); the generated atoms --
+# order / equality between two Int variables or a variable and a constant in [-1, 1], equality between U symbols -- are
+# such that satisfiability over these domains coincides with satisfiability over Z / any domain.
+INT_VARS, U_VARS = (10, 11), (20, 21, 22)
+
+
+def var_name(i):
+    return "x%d" % i if i < 10 else "y%d" % (i - 10) if i < 20 else "u%d" % (i - 20)
+
+
+def var_index(name):
+    return int(name[1:]) + {"x": 0, "y": 10, "u": 20}[name[0]]
+
+
+def var_domain(i):
+    return (False, True) if i < 10 else tuple(range(-3, 4)) if i < 20 else (0, 1, 2)
+
+
+def ev_term(t, asg):
+    return asg[t[1]] if t[0] == "ivar" else t[1]
+
+
 def ev(f, asg):
     op = f[0]
     if op == "var":
         return asg[f[1]]
+    if op in ("ilt", "ile", "ieq"):
+        a, b = ev_term(f[1], asg), ev_term(f[2], asg)
+        return a < b if op == "ilt" else a <= b if op == "ile" else a == b
+    if op == "ueq":
+        return asg[f[1]] == asg[f[2]]
     if op == "const":
         return f[1]
     if op == "not":
@@ -94,6 +133,10 @@ def fvars(f, acc=None):
     acc = set() if acc is None else acc
     if f[0] == "var":
         acc.add(f[1])
+    elif f[0] in ("ilt", "ile", "ieq"):
+        acc.update(t[1] for t in f[1:] if t[0] == "ivar")
+    elif f[0] == "ueq":
+        acc.update(f[1:])
     elif f[0] != "const":
         for g in f[1:]:
             fvars(g, acc)
@@ -103,6 +146,11 @@ def fvars(f, acc=None):
 def show(f):
     if f[0] == "var":
         return "x%d" % f[1]
+    if f[0] in ("ilt", "ile", "ieq"):
+        t = lambda a: var_name(a[1]) if a[0] == "ivar" else str(a[1])
+        return "(%s %s %s)" % (t(f[1]), {"ilt": "<", "ile": "<=", "ieq": "="}[f[0]], t(f[2]))
+    if f[0] == "ueq":
+        return "(%s = %s)" % (var_name(f[1]), var_name(f[2]))
     if f[0] == "const":
         return str(f[1])
     if f[0] == "not":
@@ -113,13 +161,31 @@ def show(f):
 def solutions(assertions):
     """Satisfying assignments of the conjunction, in the order the members enumerate them: variables sorted by
     index, False before True, first variable most significant."""
+    import itertools
     vs = sorted(set().union(*[fvars(f) for f in assertions])) if assertions else []
     sols = []
-    for bits in range(1 << len(vs)):
-        asg = {v: bool((bits >> (len(vs) - 1 - k)) & 1) for k, v in enumerate(vs)}
+    for vals in itertools.product(*[var_domain(v) for v in vs]):
+        asg = dict(zip(vs, vals))
         if all(ev(f, asg) for f in assertions):
             sols.append(asg)
     return vs, sols
+
+
+def gen_ext_formula(rng, depth=2):
+    """Formulas for the SMT-LIB members: Bool, linear integer order, equality over the user-declared sort U."""
+    if depth == 0 or rng.random() < 0.3:
+        k = rng.random()
+        if k < 0.3:
+            return ["var", rng.randrange(NVARS)]
+        if k < 0.7:
+            a = ["ivar", rng.choice(INT_VARS)]
+            b = rng.choice([["ivar", INT_VARS[0] + INT_VARS[1] - a[1]], ["ic", rng.choice([-1, 0, 1])]])
+            return [rng.choice(["ilt", "ile", "ieq"]), a, b]
+        return ["ueq"] + rng.sample(U_VARS, 2)
+    op = rng.choice(["and", "or", "not", "imp", "iff"])
+    if op == "not":
+        return ["not", gen_ext_formula(rng, depth - 1)]
+    return [op, gen_ext_formula(rng, depth - 1), gen_ext_formula(rng, depth - 1)]
 
 
 # --------------------------------------------------------------------------- the member solver (runs in the children)
@@ -129,7 +195,7 @@ def _install(env):
     from pysmt.solvers.solver import IncrementalTrackingSolver, SolverOptions
     from pysmt.solvers.eager import EagerModel
     from pysmt.decorators import clear_pending_pop
-    from pysmt.exceptions import SolverReturnedUnknownResultError, InternalSolverError
+    from pysmt.exceptions import SolverReturnedUnknownResultError, InternalSolverError, PysmtValueError
     from pysmt.logics import QF_BOOL
 
     class Opts(SolverOptions):
@@ -226,6 +292,8 @@ def _install(env):
             return self.model
 
         def get_value(self, f):
+            if f.is_symbol() and f.symbol_name() == "boom":
+                raise PysmtValueError("C19Member cannot evaluate 'boom'")
             return self.model.get_value(f)
 
         def _exit(self):
@@ -257,10 +325,38 @@ def _perturb(pt):
         mpp.BaseProcess.terminate = terminate
 
 
+def _count_events():
+    """Observable events of the parent, to be compared with the model's step bound: messages taken from the signalling
+    queue and terminate() calls."""
+    import multiprocessing.process as mpp
+    import multiprocessing.queues as mpq
+    counters = {"terminate": 0, "read": 0}
+    orig_term = mpp.BaseProcess.terminate
+    orig_get = mpq.Queue.get
+
+    def terminate(self):
+        counters["terminate"] += 1
+        return orig_term(self)
+
+    def get(self, *a, **kw):
+        r = orig_get(self, *a, **kw)
+        counters["read"] += 1
+        return r
+    mpp.BaseProcess.terminate = terminate
+    mpq.Queue.get = get
+    return counters
+
+
 def _to_fnode(mgr, syms, f):
     op = f[0]
     if op == "var":
         return syms[f[1]]
+    if op in ("ilt", "ile", "ieq"):
+        t = lambda a: syms[a[1]] if a[0] == "ivar" else mgr.Int(a[1])
+        a, b = t(f[1]), t(f[2])
+        return mgr.LT(a, b) if op == "ilt" else mgr.LE(a, b) if op == "ile" else mgr.Equals(a, b)
+    if op == "ueq":
+        return mgr.Equals(syms[f[1]], syms[f[2]])
     if op == "const":
         return mgr.Bool(f[1])
     if op == "not":
@@ -318,14 +414,31 @@ def _worker(cfg, wfd):
         env = reset_env()
         _install(env)
         _perturb(cfg.get("perturb") or {})
+        counters = _count_events()
         mgr = env.formula_manager
-        syms = [mgr.Symbol("x%d" % i) for i in range(NVARS)]
-        members = [("c19member", {"solver_options": {"delay_ms": m["delay_ms"], "mode": m["mode"], "pick": m["pick"]}})
-                   for m in cfg["members"]]
-        p = Portfolio(members, environment=env, logic=QF_BOOL,
+        syms = {i: mgr.Symbol("x%d" % i) for i in range(NVARS)}
+        logic = QF_BOOL
+        if cfg.get("kind") == "ext":
+            # members = pySMT's generic SMT-LIB wrapper (pysmt/smtlib/solver.py) over a controlled external process
+            from pysmt.logics import QF_UFLIA
+            from pysmt.typing import INT
+            logic = QF_UFLIA
+            usort = env.type_manager.Type("U", 0)
+            syms.update({i: mgr.Symbol(var_name(i), INT) for i in INT_VARS})
+            syms.update({i: mgr.Symbol(var_name(i), usort) for i in U_VARS})
+            members = []
+            for k, m in enumerate(cfg["members"]):
+                name = "c19ext%d" % k
+                env.factory.add_generic_solver(name, [sys.executable, "-B", os.path.abspath(__file__), "--extsolver",
+                                                      "--mode", "ok" if m["mode"] == "answer" else m["mode"], "--delay-ms", str(m["delay_ms"])], [QF_UFLIA])
+                members.append(name)
+        else:
+            members = [("c19member", {"solver_options": {"delay_ms": m["delay_ms"], "mode": m["mode"], "pick": m["pick"]}})
+                       for m in cfg["members"]]
+        p = Portfolio(members, environment=env, logic=logic,
                       solver_options={"exit_on_exception": bool(cfg["eoe"])})
         # twin: the same edits with push(k) / pop(n) replaced by k / n single calls (it never solves: no processes)
-        twin = Portfolio(members, environment=env, logic=QF_BOOL,
+        twin = Portfolio(members, environment=env, logic=logic,
                          solver_options={"exit_on_exception": bool(cfg["eoe"])})
         canon = {}           # FNode -> index of the first assert step that produced it
 
@@ -339,13 +452,14 @@ def _worker(cfg, wfd):
             op = step[0]
             rec = {"step": k, "op": op}
             t0 = time.time()
-            if op in ("get_model", "get_values") and not last_sat:
-                # a query is only meaningful after a "sat" verdict
+            if op in ("get_model", "get_values", "get_boom", "kill_winner") and not last_sat:
+                # a query is only meaningful after a "sat" verdict (`probe_value` is the one issued in any state)
                 rec["skipped"] = True
                 emit(rec)
                 continue
-            if op not in ("get_model", "get_values"):
+            if op not in ("get_model", "get_values", "get_boom", "probe_value"):
                 last_sat = False
+            counters["terminate"] = counters["read"] = 0
             try:
                 if op == "assert":
                     fn = _to_fnode(mgr, syms, step[1])
@@ -368,7 +482,10 @@ def _worker(cfg, wfd):
                 elif op in SOLVE_OPS:
                     winner = None
                     if op == "solve":
-                        res = p.solve()
+                        if len(step) > 1:
+                            res = p.solve([_to_fnode(mgr, syms, a) for a in step[1]])
+                        else:
+                            res = p.solve()
                     else:
                         # one-shot shortcuts of Solver: push, assert, solve, and the level is popped by the next command
                         res = getattr(p, op)(_to_fnode(mgr, syms, step[1]))
@@ -383,21 +500,44 @@ def _worker(cfg, wfd):
                     rec["others_alive"] = _others_alive(ext)
                     if op == "solve":
                         probe(rec)       # (not after a one-shot shortcut: reading `assertions` pops its level)
+                elif op == "probe_value":
+                    # get_value in whatever state the portfolio is in
+                    rec["kept"] = p._ext_solver is not None
+                    rec["value"] = p.get_value(syms[step[1]]).is_true()
+                elif op == "get_boom":
+                    # a query that fails inside the member's solver
+                    rec["value"] = str(p.get_value(mgr.Symbol("boom")))
+                elif op == "kill_winner":
+                    ext = p._ext_solver
+                    os.kill(ext.pid, signal.SIGKILL)
+                    ext.join(10)
+                    rec["killed"] = not ext.is_alive()
                 elif op == "get_model":
                     m = p.get_model()
                     rec["model"] = {str(k_): v.is_true() for k_, v in m}
                 elif op == "get_values":
                     vals = {}
-                    for i in step[1]:
-                        vals["x%d" % i] = p.get_value(syms[i]).is_true()
+                    wanted = step[1]
+                    if cfg.get("kind") == "ext":
+                        # an SMT-LIB solver only knows the symbols of the formulas it was given
+                        known = set()
+                        for f_ in p._assertion_stack:
+                            known |= set(f_.simplify().get_free_variables())   # (the wrapper asserts the simplified formula)
+                        wanted = [i for i in wanted if syms[i] in known]
+                    for i in wanted:
+                        val = p.get_value(syms[i])
+                        vals[var_name(i)] = val.is_true() if val.is_bool_constant() else int(val.constant_value())
                     rec["values"] = vals
             except BaseException as e:     # noqa: the outcome "exception" is data
                 rec["exc"] = type(e).__name__
                 rec["pysmt_exc"] = isinstance(e, PysmtException)
+                rec["os_exc"] = isinstance(e, (OSError, EOFError))
                 rec["msg"] = str(e)[:200]
                 if op in SOLVE_OPS:
                     rec["others_alive"] = _others_alive(None)
             rec["dt"] = round(time.time() - t0, 4)
+            if op in SOLVE_OPS:
+                rec["n_terminate"], rec["n_read"] = counters["terminate"], counters["read"]
             emit(rec)
         t0 = time.time()
         rec = {"step": "exit", "op": "exit"}
@@ -591,8 +731,20 @@ def gen_script(rng, ncycles):
                 script.append(["solve"])
         else:
             script.append(["assert", f])
-            script.append(["solve"])
+            if rng.random() < 0.25:
+                # solve under assumptions: literals, now and then any formula
+                lits = [rng.choice([["var", i], ["not", ["var", i]]]) for i in rng.sample(range(NVARS), rng.choice([1, 2]))]
+                if rng.random() < 0.3:
+                    lits.append(rng.choice([["not", f], gen_formula(rng, 2)]))
+                script.append(["solve", lits])
+            else:
+                script.append(["solve"])
         q = rng.random()
+        x = rng.random()
+        if x < 0.12:
+            script.append(["probe_value", rng.randrange(NVARS)])      # whatever the outcome of the solve was
+        elif x < 0.2:
+            script.append(["get_boom"])                               # a query the member's solver cannot answer
         if q < 0.5:
             script.append(["get_model"])
         if q > 0.3:
@@ -601,7 +753,64 @@ def gen_script(rng, ncycles):
             script.append(["get_values", order])
         if q > 0.8:
             script.append(["get_model"])
+        if x > 0.93:
+            # the surviving member is killed from outside: the next query must end with an error, not block
+            script.append(["kill_winner"])
+            script.append(["probe_value", rng.randrange(NVARS)])
+    if rng.random() < 0.1:
+        script.insert(0, ["probe_value", 0])                          # before any solve()
     return script
+
+
+def gen_ext_script(rng, ncycles):
+    """Scripts for portfolios of SMT-LIB wrapper members: formulas over Bool, Int and the declared sort U."""
+    script, depth = [], 0
+    for c in range(ncycles):
+        r = rng.random()
+        if c > 0 and depth > 0 and r < 0.3:
+            n = rng.choice([k for k in (1, 1, 2) if k <= depth])
+            script.append(["pop"] if n == 1 else ["pop", n])
+            depth -= n
+        elif r < 0.6:
+            n = rng.choice([1, 1, 2])
+            script.append(["push"] if n == 1 else ["push", n])
+            depth += n
+        f = gen_ext_formula(rng)
+        if rng.random() < 0.6 and "ueq" not in json.dumps(f):
+            f = ["and", f, rng.choice([["ueq"] + rng.sample(U_VARS, 2), ["not", ["ueq"] + rng.sample(U_VARS, 2)]])]
+        if rng.random() < 0.15:
+            f = ["and", f, ["not", f]]
+        kind = rng.random()
+        if kind < 0.25:
+            script.append([rng.choice(["is_sat", "is_valid", "is_unsat"]), f])
+        else:
+            script.append(["assert", f])
+            if kind < 0.45:
+                script.append(["solve", [rng.choice([["var", rng.randrange(NVARS)],
+                                                     ["ile", ["ivar", rng.choice(INT_VARS)], ["ic", 0]],
+                                                     ["not", ["ueq"] + rng.sample(U_VARS, 2)]])]])
+            else:
+                script.append(["solve"])
+        if rng.random() < 0.7:
+            script.append(["get_values", list(range(NVARS)) + list(INT_VARS)])
+    return script
+
+
+def gen_ext_configs(rng, count):
+    cfgs = []
+    fixed = [(False, ["crash", "crash"]), (False, ["crash", "unknown", "crash"]), (False, ["answer", "answer"]),
+             (False, ["answer", "crash"]), (True, ["crash", "answer"]), (False, ["crash_after", "answer"]),
+             (False, ["unknown", "answer", "crash_after"]), (True, ["answer", "answer", "answer"])]
+    for k in range(count):
+        if k < len(fixed):
+            eoe, modes = fixed[k]
+        else:
+            eoe = rng.random() < 0.3
+            modes = [rng.choice(["answer", "answer", "unknown", "crash", "crash_after"]) for _ in range(rng.choice([2, 3]))]
+        cfgs.append({"kind": "ext", "eoe": eoe, "shape": "smtlib-wrapper-members",
+                     "members": [{"mode": m, "pick": i, "delay_ms": rng.choice([0, 0, 5, 20, 60])} for i, m in enumerate(modes)],
+                     "script": gen_ext_script(rng, rng.choice([1, 2, 2, 3]))})
+    return cfgs
 
 
 def gen_members(rng, n, shape):
@@ -671,7 +880,7 @@ def gen_configs(ctx):
                                   else rng.choice([0, 1, 5, 10, 20])}
                                  for i, m in enumerate(modes)],
                      "script": gen_script(rng, 1 if k < len(slow) else rng.choice([1, 2]))})
-    n_random = 200 if ctx.tier == "quick" else 6000
+    n_random = 180 if ctx.tier == "quick" else 6000
     shapes = ["mixed"] * 5 + ["all-fail"] * 2 + ["all-answer"] * 2 + ["one-answer"] * 2 + ["poll"] * 2
     for _ in range(n_random):
         n = rng.choice([2, 3, 3, 4, 4])
@@ -693,6 +902,7 @@ def gen_configs(ctx):
             # losers get time to finish while the winner is being selected
             cfg["perturb"] = {"terminate_ms": rng.choice([2, 5, 10])}
         cfgs.append(cfg)
+    cfgs += gen_ext_configs(rng, 20 if ctx.tier == "quick" else 300)
     for k, c in enumerate(cfgs):
         c["id"] = k
     return cfgs
@@ -700,7 +910,7 @@ def gen_configs(ctx):
 
 # --------------------------------------------------------------------------- expected values
 def lean_line(cfg, truth):
-    ms = ",".join(("T" if truth else "F") if m["mode"] == "answer" else MODE_LETTER[m["mode"]]
+    ms = ",".join(("T" if truth else "F") if m["mode"] in ANSWERING else MODE_LETTER[m["mode"]]
                   for m in cfg["members"])
     return "portfolio eoe=%d atomic=1 %s" % (1 if cfg["eoe"] else 0, ms)
 
@@ -708,13 +918,13 @@ def lean_line(cfg, truth):
 def py_allowed(cfg, truth):
     """The property text, directly (S oracle): set of acceptable outcomes of one solve()."""
     modes = [m["mode"] for m in cfg["members"]]
-    answers = "answer" in modes
+    answers = any(m in ANSWERING for m in modes)
     exn = set()
     if "raise" in modes:
         exn.add("err:InternalSolverError")
     if "unknown" in modes:
         exn.add("err:SolverReturnedUnknownResultError")
-    if any(m.startswith("nonbool") for m in modes):
+    if any(m.startswith("nonbool") or m == "crash" for m in modes):
         exn.add("err:UnknownSolverAnswerError")
     v = {"v:T" if truth else "v:F"}
     if not cfg["eoe"]:
@@ -775,7 +985,7 @@ def solve_stack(step, stack):
     """The assertions that the solve() call of a solve-like step sees: the live stack, plus the formula of a one-shot
     shortcut on its temporary level (is_valid asks for the satisfiability of the negation)."""
     if step[0] == "solve":
-        return list(stack)
+        return list(stack) + list(step[1] if len(step) > 1 else [])      # solve(assumptions)
     return list(stack) + [["not", step[1]] if step[0] == "is_valid" else step[1]]
 
 
@@ -784,13 +994,14 @@ def describe(cfg):
         cfg["eoe"], (" perturb=%s" % json.dumps(cfg["perturb"], sort_keys=True)) if cfg.get("perturb") else "",
         ", ".join("%s@%dms/pick%d" % (m["mode"], m["delay_ms"], m["pick"]) for m in cfg["members"]),
         "; ".join(s[0] + (" " + show(s[1]) if s[0] in ("assert", "is_sat", "is_valid", "is_unsat") else
-                         "(%d)" % s[1] if s[0] in ("push", "pop") and len(s) > 1 else "")
+                         "(%d)" % s[1] if s[0] in ("push", "pop") and len(s) > 1 else
+                         "(%s)" % ", ".join(show(a) for a in s[1]) if s[0] == "solve" and len(s) > 1 else "")
                   for s in cfg["script"]))
 
 
 def shape_of(cfg):
     modes = [m["mode"] for m in cfg["members"]]
-    na = modes.count("answer")
+    na = len([m for m in modes if m in ANSWERING])
     if na == 0:
         return "all-fail"
     if na == len(modes):
@@ -800,9 +1011,9 @@ def shape_of(cfg):
 
 def nontrivial_key(cfg):
     modes = [m["mode"] for m in cfg["members"]]
-    ans = sorted(m["delay_ms"] for m in cfg["members"] if m["mode"] == "answer")
+    ans = sorted(m["delay_ms"] for m in cfg["members"] if m["mode"] in ANSWERING)
     race = len(ans) >= 2 and ans[1] - ans[0] <= 2
-    if any(m != "answer" for m in modes) or race:
+    if any(m not in ANSWERING for m in modes) or race or cfg.get("kind") == "ext":
         return json.dumps([cfg["eoe"], [(m["mode"], m["delay_ms"]) for m in cfg["members"]],
                            [s[0] for s in cfg["script"]]])
     return None
@@ -823,6 +1034,8 @@ def check_result(ctx, cfg, records, blocked, lean_sets, reports):
     lean_live = lean_sets.get(stack_line(cfg))
     fid = {}              # assert step -> first assert step with the same FNode (the worker's `canon`)
     stack_reported = False
+    phase = "none"        # none (no solver kept) | sat | unsat | stale (edited since) | killed (winner killed from outside)
+    nmem = len(cfg["members"])
     for k, step in enumerate(cfg["script"]):
         op = step[0]
         rec = by_step.get(k)
@@ -838,11 +1051,14 @@ def check_result(ctx, cfg, records, blocked, lean_sets, reports):
                     if allowed is not None and "blocked" not in allowed[0]:
                         reports.append(("k", None, "%s() blocked; the model allows only %s" % (op, sorted(allowed[0]))))
                     reports.append(("s", dict(base, oracle="outcome-set", call=op, observed="blocked"), what))
-                elif op in ("get_model", "get_values") and sat_now is not None:
+                elif op in ("get_model", "get_values", "get_boom") and sat_now is not None:
                     reports.append(("k", None, "%s blocked; the model (A1) says it is answered" % op))
                     reports.append(("s", dict(base, oracle="query", call=op, observed="blocked"), what))
-                elif op in ("get_model", "get_values"):
-                    pass       # query after a non-sat outcome: unspecified
+                elif op == "probe_value":
+                    reports.append(("k", None, "get_value blocked (%s); the model says every call returns" % phase))
+                    reports.append(("s", dict(base, oracle="query", call=op, observed="blocked", phase=phase), what))
+                elif op in ("get_model", "get_values", "get_boom", "kill_winner"):
+                    pass       # skipped by the worker when there is no sat verdict
                 else:
                     reports.append(("s", dict(base, oracle="outcome-set", call=op, observed="blocked"), what))
             else:
@@ -875,6 +1091,8 @@ def check_result(ctx, cfg, records, blocked, lean_sets, reports):
                 reports.append(("s", sig, what))
         if op in ("assert", "push", "pop"):
             sat_now = None
+            if phase in ("sat", "unsat"):
+                phase = "stale"
             if "exc" in rec:
                 reports.append(("s", dict(base, oracle="outcome-set", call=op, observed="err:" + rec["exc"]),
                                 "%s raised %s: %s" % (op, rec["exc"], rec.get("msg"))))
@@ -899,6 +1117,14 @@ def check_result(ctx, cfg, records, blocked, lean_sets, reports):
                 observed = "v:?" + str(res)
             if op != "solve":
                 ctx.count("one-shot " + op)
+            elif len(step) > 1:
+                ctx.count("solve with assumptions")
+            phase = "sat" if observed == "v:T" else "unsat" if observed == "v:F" else "none"
+            # step bound of the model (solve_step_bound): at most one message per member is read, at most n terminations
+            # (+1: `_close_existing` terminates the solver kept by the previous call, part of `solveStart`)
+            if rec.get("n_read", 0) > nmem or rec.get("n_terminate", 0) > nmem + 1:
+                reports.append(("k", None, "%s(): %s messages read and %s terminate() calls for %d members (model: at most n / n+1)"
+                                % (op, rec.get("n_read"), rec.get("n_terminate"), nmem)))
             ctx.count("outcome " + observed.split(":")[0] + (":" + shape_of(cfg)) + (" eoe" if cfg["eoe"] else ""))
             # K: observed in the model's set
             line = lean_line(cfg, truth)
@@ -919,13 +1145,13 @@ def check_result(ctx, cfg, records, blocked, lean_sets, reports):
                                    if rec.get("others_alive") else "")))
             if observed.startswith("v:"):
                 w = rec.get("winner")
-                ans = [(m["delay_ms"], i) for i, m in enumerate(cfg["members"]) if m["mode"] == "answer"]
+                ans = [(m["delay_ms"], i) for i, m in enumerate(cfg["members"]) if m["mode"] in ANSWERING]
                 if len(ans) >= 2:
                     ctx.count("race won by the member with the smallest delay" if (w is not None and w < len(cfg["members"])
                               and cfg["members"][w]["delay_ms"] == min(ans)[0]) else "race won by a slower member")
                     if w is not None and w != min(ans)[1]:
                         ctx.count("race won by a member other than the first fastest")
-                if w is None or not (0 <= w < len(cfg["members"])) or cfg["members"][w]["mode"] != "answer":
+                if w is None or not (0 <= w < len(cfg["members"])) or cfg["members"][w]["mode"] not in ANSWERING:
                     reports.append(("k", None, "verdict_in_answers: _ext_solver is member %r, which does not answer" % (w,)))
                     reports.append(("s", dict(base, oracle="winner-answers", call=op),
                                     "solve() returned %s but the surviving member %r is not one that answers" % (observed, w)))
@@ -936,7 +1162,12 @@ def check_result(ctx, cfg, records, blocked, lean_sets, reports):
                                     "after %s() returned, member processes %s other than the winner are still alive"
                                     % (op, rec["others_alive"])))
                 if observed == "v:T" and truth and w is not None and 0 <= w < len(cfg["members"]):
-                    sat_now = (w, sols[cfg["members"][w]["pick"] % len(sols)])
+                    if cfg.get("kind") == "ext":
+                        # an SMT-LIB member: which model it picks is its own business; a member whose wrapped process
+                        # died after the verdict cannot serve queries (that is the member's failure, not the portfolio's)
+                        sat_now = None if cfg["members"][w]["mode"] == "crash_after" else (w, None)
+                    else:
+                        sat_now = (w, sols[cfg["members"][w]["pick"] % len(sols)])
             else:
                 if rec.get("others_alive"):
                     reports.append(("k", None, "losers_dead: after solve() raised, member processes %s are still alive"
@@ -946,7 +1177,51 @@ def check_result(ctx, cfg, records, blocked, lean_sets, reports):
                                     % (op, observed, rec["others_alive"])))
             continue
         # queries
-        if sat_now is None or rec.get("skipped"):
+        if rec.get("skipped"):
+            continue
+        if op == "kill_winner":
+            phase, sat_now = "killed", None
+            continue
+        if op == "get_boom":
+            # the member's solver raises: the exception must come back (F25f) and the member must go on serving
+            ctx.count("query failing inside the member")
+            if rec.get("exc") != "PysmtValueError":
+                reports.append(("k", None, "get_value(boom) -> %s; the model says the winner replies (here: with its exception)"
+                                % (rec.get("exc") or rec.get("value"))))
+                reports.append(("s", dict(base, oracle="query-failure", call=op, observed="err:%s" % rec.get("exc")),
+                                "get_value of a term the member's solver rejects ended with %s instead of the solver's "
+                                "PysmtValueError" % (rec.get("exc") or "a value")))
+            continue
+        if op == "probe_value":
+            ctx.count("get_value in phase " + phase)
+            exc = rec.get("exc")
+            if phase == "none":
+                # no solver is kept (no solve() yet, or the last one raised): immediate ValueError (F25e)
+                if exc != "ValueError" or rec.get("kept"):
+                    reports.append(("k", None, "get_value without a kept solver -> %s (kept=%s); the model: immediate error"
+                                    % (exc or rec.get("value"), rec.get("kept"))))
+                    reports.append(("s", dict(base, oracle="query-without-solver", call=op, observed="err:%s" % exc),
+                                    "get_value after a solve() that gave no verdict ended with %s instead of "
+                                    "ValueError('No SAT model')" % (exc or "a value")))
+            elif phase == "killed":
+                if exc is None:
+                    reports.append(("k", None, "get_value after the winner was killed returned %r; the model: EOF error"
+                                    % (rec.get("value"),)))
+            elif phase in ("unsat", "stale"):
+                if exc is not None and rec.get("os_exc"):
+                    reports.append(("s", dict(base, oracle="query-failure", call=op, observed="err:%s" % exc),
+                                    "get_value after %s ended with the OS-level %s: the serving member died instead of "
+                                    "reporting its error" % ("an unsat verdict" if phase == "unsat" else "an edit", exc)))
+            elif sat_now is not None:
+                w, expected = sat_now
+                if exc is not None:
+                    reports.append(("s", dict(base, oracle="query", call=op, observed="err:" + exc),
+                                    "get_value after a sat verdict raised %s: %s" % (exc, rec.get("msg"))))
+                elif expected is not None and step[1] in expected and rec.get("value") != expected[step[1]]:
+                    reports.append(("k", None, "serve_from_winner: get_value(x%d) -> %s, the winner's model is %s"
+                                    % (step[1], rec.get("value"), expected)))
+            continue
+        if sat_now is None:
             continue           # after unsat / an exception: behaviour unspecified, nothing to check
         w, expected = sat_now
         if "exc" in rec:
@@ -955,17 +1230,27 @@ def check_result(ctx, cfg, records, blocked, lean_sets, reports):
                             "%s after a sat verdict raised %s: %s" % (op, rec["exc"], rec.get("msg"))))
             return
         got = rec.get("model") if op == "get_model" else rec.get("values")
-        asg = {int(name[1:]): val for name, val in got.items()}
+        asg = {var_index(name): val for name, val in got.items()}
         # S: satisfies the assertions (variables without a value: both completions must work => try all)
         free = [v for v in vs if v not in asg]
-        def completed(bits):
+        import itertools
+        fulls = [dict(asg, **{}) for _ in ()]
+        fulls = []
+        for vals in itertools.product(*[var_domain(v) for v in free]):
             full = dict(asg)
-            full.update({v: bool((bits >> i) & 1) for i, v in enumerate(free)})
-            return full
-        sat_ok = all(all(ev(f, completed(bits)) for f in cur) for bits in range(1 << len(free)))
+            full.update(dict(zip(free, vals)))
+            fulls.append(full)
+        if expected is None:
+            # SMT-LIB members: values were asked for some variables only (not for those of sort U): the values obtained
+            # must be extensible to a model
+            sat_ok = any(all(ev(f, full) for f in cur) for full in fulls)
+        else:
+            sat_ok = all(all(ev(f, full) for f in cur) for full in fulls)
         if not sat_ok:
             reports.append(("s", dict(base, oracle="model-satisfies", call=op),
                             "%s -> %s does not satisfy the assertions %s" % (op, got, [show(f) for f in cur])))
+        if expected is None:
+            continue
         # K: served by the winner (its model is a function of its `pick`)
         exp = {v: expected[v] for v in vs}
         seen = {v: asg[v] for v in vs if v in asg}
@@ -1082,6 +1367,8 @@ def run(ctx):
     workers = max(1, ctx.workers)
     run_configs(ctx, cfgs, workers, on_result, stop)
     ctx.extra["configurations"] = len(cfgs)
+    ctx.extra["escalation"] = ("ESCALATE = False: the anchored code runs in forked worker / member processes; the runner's "
+                               "line coverage is per process and cannot drive the changed-line escalation for C19")
     ctx.extra["configurations_run"] = ctx.evaluations
     if ctx.evaluations < len(cfgs):
         ctx.extra["stopped_early"] = "blocked calls" if n_blocked[0] >= 6 else "time budget"
@@ -1109,3 +1396,52 @@ def replay(ctx, rep):
     while state["n"] < attempts and not state["hit"] and ctx.time_left() > BLOCK_S + 15:
         run_configs(ctx, [cfg] * batch, batch, on_result)
     ctx.extra["replay_attempts"] = state["n"]
+
+
+# --------------------------------------------------------------------------- the controlled external SMT-LIB process
+def _ext_main(argv):
+    """`c19.py --extsolver --mode ok|unknown|crash|crash_after --delay-ms D`: the strict reference SMT-LIB solver of the
+    harness (refsolver.py, enumeration over Bool / Int in [-3, 3] / 3-element declared sorts) with a controlled behaviour
+    at `check-sat`: answer after D ms; answer `unknown`; die without an answer; answer and die."""
+    import refsolver
+    mode, delay = "ok", 0
+    i = 0
+    while i < len(argv):
+        if argv[i] == "--mode":
+            mode = argv[i + 1]
+        elif argv[i] == "--delay-ms":
+            delay = int(argv[i + 1])
+        i += 2
+    st = refsolver.Strict(3, 3)
+    pending = []
+    out = sys.stdout
+    for line in sys.stdin:
+        try:
+            pending += refsolver.tokenize(line)
+            cmds, pending = refsolver.parse(pending)
+        except refsolver.Err:
+            cmds, pending = [None], []
+        for c in cmds:
+            is_check = isinstance(c, list) and c and c[0] == "check-sat"
+            if is_check:
+                if delay:
+                    time.sleep(delay / 1000.0)
+                if mode == "crash":
+                    os._exit(9)
+            reply = '(error "syntax error")' if c is None else st.command(c)
+            if is_check and mode == "unknown":
+                reply = "unknown"
+                st.sat_mode = False
+            if reply != "success" or st.print_success:
+                out.write(reply + "\n")
+                out.flush()
+            if is_check and mode == "crash_after":
+                os._exit(0)
+            if st.exited:
+                return 0
+    return 0
+
+
+if __name__ == "__main__":
+    if len(sys.argv) > 1 and sys.argv[1] == "--extsolver":
+        sys.exit(_ext_main(sys.argv[2:]))
